@@ -1,6 +1,5 @@
-import NutilsVerif.Generated.C04
-import NutilsVerif.Proofs.C04Deriv
-import NutilsVerif.Proofs.C04Link
+import NutilsVerif.Proofs.C04Tables
+import NutilsVerif.Proofs.C04Chain
 /-!
 # C04 — symbolic derivatives equal the true derivatives: theorems
 
@@ -24,270 +23,31 @@ open Real
 
 /-- **Pointwise.deriv tables and generic scalar rules.**  For every row `(f, i, d)` extracted from the code whose
 function name has a fixed real meaning, and every point `x` of the claimed domain of differentiability,
-`t ↦ f(x with xᵢ := t)` has derivative `d(x)` at `xᵢ`. -/
-theorem derivTable_sound : ∀ e ∈ Generated.table, e.name ∈ provedNames → ∀ x : Nat → ℝ, Dom e.name e.pos x → e.SoundAt x := by
-  intro e he hp x hd
-  simp only [Generated.table, List.mem_cons, List.mem_nil_iff, or_false] at he
-  rcases he with rfl | rfl | rfl | rfl | rfl | rfl | rfl | rfl | rfl | rfl | rfl | rfl | rfl | rfl | rfl | rfl | rfl | rfl | rfl | rfl | rfl | rfl | rfl | rfl | rfl | rfl | rfl | rfl | rfl | rfl | rfl | rfl
-  · -- arccos 0
-    simp [Entry.SoundAt, SE.sem, sem1, sem2, Dom, upd_01, upd_10] at hd ⊢
-    have h := Real.hasDerivAt_arccos (ne_of_gt hd.1) (ne_of_lt hd.2)
-    refine h.congr_deriv ?_
-    rw [Real.rpow_neg_one, ← one_div (2:ℝ), ← Real.sqrt_eq_rpow, one_div, neg_add_eq_sub]
-  · -- arcsin 0
-    simp [Entry.SoundAt, SE.sem, sem1, sem2, Dom, upd_01, upd_10] at hd ⊢
-    have h := Real.hasDerivAt_arcsin (ne_of_gt hd.1) (ne_of_lt hd.2)
-    refine h.congr_deriv ?_
-    rw [Real.rpow_neg_one, ← one_div (2:ℝ), ← Real.sqrt_eq_rpow, one_div, neg_add_eq_sub]
-  · -- arctan 0
-    simp [Entry.SoundAt, SE.sem, sem1, sem2, Dom, upd_01, upd_10] at hd ⊢
-    refine (Real.hasDerivAt_arctan (x 0)).congr_deriv ?_
-    rw [Real.rpow_neg_one, one_div, add_comm]
-  · -- arctan2 0
-    simp [Entry.SoundAt, SE.sem, sem1, sem2, Dom, upd_01, upd_10] at hd ⊢
-    refine (hasDerivAt_arctan2_fst hd.1 hd.2).congr_deriv ?_
-    rw [Real.rpow_neg_one]; ring_nf
-  · -- arctan2 1
-    simp [Entry.SoundAt, SE.sem, sem1, sem2, Dom, upd_01, upd_10] at hd ⊢
-    refine (hasDerivAt_arctan2_snd hd.1 hd.2).congr_deriv ?_
-    rw [Real.rpow_neg_one]; ring_nf
-  · -- arctanh 0
-    simp [Entry.SoundAt, SE.sem, sem1, sem2, Dom, upd_01, upd_10] at hd ⊢
-    refine (hasDerivAt_artanh hd.1 hd.2).congr_deriv ?_
-    rw [Real.rpow_neg_one, neg_add_eq_sub]
-  · -- cos 0
-    simp [Entry.SoundAt, SE.sem, sem1, sem2, Dom, upd_01, upd_10] at hd ⊢
-    exact Real.hasDerivAt_cos (x 0)
-  · -- cosh 0
-    simp [Entry.SoundAt, SE.sem, sem1, sem2, Dom, upd_01, upd_10] at hd ⊢
-    exact Real.hasDerivAt_cosh (x 0)
-  · -- exp 0
-    simp [Entry.SoundAt, SE.sem, sem1, sem2, Dom, upd_01, upd_10] at hd ⊢
-    exact Real.hasDerivAt_exp (x 0)
-  · -- log 0
-    simp [Entry.SoundAt, SE.sem, sem1, sem2, Dom, upd_01, upd_10] at hd ⊢
-    refine (Real.hasDerivAt_log (ne_of_gt hd)).congr_deriv ?_
-    rw [Real.rpow_neg_one]
-  · -- max 0
-    simp [Entry.SoundAt, SE.sem, sem1, sem2, Dom, upd_01, upd_10] at hd ⊢
-    refine (hasDerivAt_max_left hd).congr_deriv ?_
-    rw [neg_add_eq_sub]; ring_nf
-  · -- max 1
-    simp [Entry.SoundAt, SE.sem, sem1, sem2, Dom, upd_01, upd_10] at hd ⊢
-    refine (hasDerivAt_max_right hd).congr_deriv ?_
-    rw [neg_add_eq_sub]; ring_nf
-  · -- min 0
-    simp [Entry.SoundAt, SE.sem, sem1, sem2, Dom, upd_01, upd_10] at hd ⊢
-    refine (hasDerivAt_min_left hd).congr_deriv ?_
-    rw [neg_add_eq_sub]; ring_nf
-  · -- min 1
-    simp [Entry.SoundAt, SE.sem, sem1, sem2, Dom, upd_01, upd_10] at hd ⊢
-    refine (hasDerivAt_min_right hd).congr_deriv ?_
-    rw [neg_add_eq_sub]; ring_nf
-  · -- sin 0
-    simp [Entry.SoundAt, SE.sem, sem1, sem2, Dom, upd_01, upd_10] at hd ⊢
-    exact Real.hasDerivAt_sin (x 0)
-  · -- sinh 0
-    simp [Entry.SoundAt, SE.sem, sem1, sem2, Dom, upd_01, upd_10] at hd ⊢
-    exact Real.hasDerivAt_sinh (x 0)
-  · -- sinc0 0: not claimed (no real semantics fixed)
-    simp [provedNames] at hp
-  · -- tan 0
-    simp [Entry.SoundAt, SE.sem, sem1, sem2, Dom, upd_01, upd_10] at hd ⊢
-    refine (Real.hasDerivAt_tan hd).congr_deriv ?_
-    rw [one_div]
-  · -- tanh 0
-    simp [Entry.SoundAt, SE.sem, sem1, sem2, Dom, upd_01, upd_10] at hd ⊢
-    refine (hasDerivAt_tanh (x 0)).congr_deriv ?_
-    ring_nf
-  · -- reciprocal 0
-    simp [Entry.SoundAt, SE.sem, sem1, sem2, Dom, upd_01, upd_10] at hd ⊢
-    refine (Real.hasDerivAt_rpow_const (p := -1) (Or.inl hd)).congr_deriv ?_
-    ring_nf
-  · -- negative 0
-    simp [Entry.SoundAt, SE.sem, sem1, sem2, Dom, upd_01, upd_10] at hd ⊢
-    exact hasDerivAt_neg' (x 0)
-  · -- sqrt 0
-    simp [Entry.SoundAt, SE.sem, sem1, sem2, Dom, upd_01, upd_10] at hd ⊢
-    refine (Real.hasDerivAt_rpow_const (p := 2⁻¹) (Or.inl (ne_of_gt hd))).congr_deriv ?_
-    norm_num; ring_nf
-  · -- abs 0
-    simp [Entry.SoundAt, SE.sem, sem1, sem2, Dom, upd_01, upd_10] at hd ⊢
-    exact hasDerivAt_sign_mul hd
-  · -- power:3 0
-    simp [Entry.SoundAt, SE.sem, sem1, sem2, Dom, upd_01, upd_10] at hd ⊢
-    refine (hasDerivAt_pow 3 (x 0)).congr_deriv ?_
-    norm_num; ring_nf
-  · -- power:5/2 0
-    simp [Entry.SoundAt, SE.sem, sem1, sem2, Dom, upd_01, upd_10] at hd ⊢
-    refine (Real.hasDerivAt_rpow_const (p := 5/2) (Or.inl (ne_of_gt hd))).congr_deriv ?_
-    norm_num; ring_nf
-  · -- power:-2 0
-    simp [Entry.SoundAt, SE.sem, sem1, sem2, Dom, upd_01, upd_10] at hd ⊢
-    have h := ((hasDerivAt_pow 2 (x 0)).inv (pow_ne_zero 2 hd))
-    refine h.congr_deriv ?_
-    field_simp; ring_nf
-  · -- divide 0
-    simp [Entry.SoundAt, SE.sem, sem1, sem2, Dom, upd_01, upd_10] at hd ⊢
-    exact ((hasDerivAt_id' (x 0)).const_mul (x 1 ^ (-1:ℝ))).congr_deriv (by ring)
-  · -- divide 1
-    simp [Entry.SoundAt, SE.sem, sem1, sem2, Dom, upd_01, upd_10] at hd ⊢
-    refine ((Real.hasDerivAt_rpow_const (p := -1) (Or.inl hd)).mul_const (x 0)).congr_deriv ?_
-    ring_nf
-  · -- subtract 0
-    simp [Entry.SoundAt, SE.sem, sem1, sem2, Dom, upd_01, upd_10] at hd ⊢
-    exact ((hasDerivAt_id' (x 0)).const_add (-x 1))
-  · -- subtract 1
-    simp [Entry.SoundAt, SE.sem, sem1, sem2, Dom, upd_01, upd_10] at hd ⊢
-    exact hasDerivAt_neg (x 1)
-  · -- powvar 0
-    simp [Entry.SoundAt, SE.sem, sem1, sem2, Dom, upd_01, upd_10] at hd ⊢
-    have h0 : x 0 ≠ 0 := by
-      rcases hd with h | h
-      · exact ne_of_gt h
-      · exact h.1
-    refine (Real.hasDerivAt_rpow_const (p := x 1) (Or.inl h0)).congr_deriv ?_
-    ring_nf
-  · -- powvar 1
-    simp [Entry.SoundAt, SE.sem, sem1, sem2, Dom, upd_01, upd_10] at hd ⊢
-    refine (Real.hasStrictDerivAt_const_rpow hd (x 1)).hasDerivAt.congr_deriv ?_
-    ring_nf
+`t ↦ f(x with xᵢ := t)` has derivative `d(x)` at `xᵢ`.  (Row-by-row proof in `Proofs/C04Tables.lean`; it is
+re-checked whenever the extracted table changes.) -/
+theorem derivTable_sound : ∀ e ∈ Generated.table, e.name ∈ provedNames → ∀ x : Nat → ℝ, Dom e.name e.pos x → e.SoundAt x :=
+  derivTable_sound_proof
 
 /-- **Specification rules.**  The rule table that the formal partial derivative `pderiv` applies to function atoms
 consists of true partial derivatives (same statement as `derivTable_sound`, for the hand-written table). -/
-theorem specRules_sound : ∀ e ∈ specRules, e.name ∈ provedNames → ∀ x : Nat → ℝ, Dom e.name e.pos x → e.SoundAt x := by
-  intro e he hp x hd
-  simp only [specRules, List.mem_cons, List.mem_nil_iff, or_false] at he
-  rcases he with rfl | rfl | rfl | rfl | rfl | rfl | rfl | rfl | rfl | rfl | rfl | rfl | rfl | rfl | rfl | rfl | rfl | rfl | rfl | rfl | rfl | rfl | rfl | rfl | rfl | rfl | rfl | rfl | rfl | rfl | rfl | rfl | rfl | rfl | rfl
-  · -- sin 0
-    simp [Entry.SoundAt, SE.sem, sem1, sem2, Dom, upd_01, upd_10] at hd ⊢
-    exact Real.hasDerivAt_sin (x 0)
-  · -- cos 0
-    simp [Entry.SoundAt, SE.sem, sem1, sem2, Dom, upd_01, upd_10] at hd ⊢
-    exact Real.hasDerivAt_cos (x 0)
-  · -- tan 0
-    simp [Entry.SoundAt, SE.sem, sem1, sem2, Dom, upd_01, upd_10] at hd ⊢
-    refine (Real.hasDerivAt_tan hd).congr_deriv ?_
-    rw [one_div]
-  · -- arcsin 0
-    simp [Entry.SoundAt, SE.sem, sem1, sem2, Dom, upd_01, upd_10] at hd ⊢
-    have h := Real.hasDerivAt_arcsin (ne_of_gt hd.1) (ne_of_lt hd.2)
-    refine h.congr_deriv ?_
-    rw [Real.rpow_neg_one, ← one_div (2:ℝ), ← Real.sqrt_eq_rpow, one_div, ← sub_eq_add_neg]
-  · -- arccos 0
-    simp [Entry.SoundAt, SE.sem, sem1, sem2, Dom, upd_01, upd_10] at hd ⊢
-    have h := Real.hasDerivAt_arccos (ne_of_gt hd.1) (ne_of_lt hd.2)
-    refine h.congr_deriv ?_
-    rw [Real.rpow_neg_one, ← one_div (2:ℝ), ← Real.sqrt_eq_rpow, one_div, ← sub_eq_add_neg]
-  · -- arctan 0
-    simp [Entry.SoundAt, SE.sem, sem1, sem2, Dom, upd_01, upd_10] at hd ⊢
-    refine (Real.hasDerivAt_arctan (x 0)).congr_deriv ?_
-    rw [Real.rpow_neg_one, one_div]
-  · -- exp 0
-    simp [Entry.SoundAt, SE.sem, sem1, sem2, Dom, upd_01, upd_10] at hd ⊢
-    exact Real.hasDerivAt_exp (x 0)
-  · -- log 0
-    simp [Entry.SoundAt, SE.sem, sem1, sem2, Dom, upd_01, upd_10] at hd ⊢
-    refine (Real.hasDerivAt_log (ne_of_gt hd)).congr_deriv ?_
-    rw [Real.rpow_neg_one]
-  · -- sinh 0
-    simp [Entry.SoundAt, SE.sem, sem1, sem2, Dom, upd_01, upd_10] at hd ⊢
-    exact Real.hasDerivAt_sinh (x 0)
-  · -- cosh 0
-    simp [Entry.SoundAt, SE.sem, sem1, sem2, Dom, upd_01, upd_10] at hd ⊢
-    exact Real.hasDerivAt_cosh (x 0)
-  · -- tanh 0
-    simp [Entry.SoundAt, SE.sem, sem1, sem2, Dom, upd_01, upd_10] at hd ⊢
-    refine (hasDerivAt_tanh (x 0)).congr_deriv ?_
-    ring_nf
-  · -- arctanh 0
-    simp [Entry.SoundAt, SE.sem, sem1, sem2, Dom, upd_01, upd_10] at hd ⊢
-    refine (hasDerivAt_artanh hd.1 hd.2).congr_deriv ?_
-    rw [Real.rpow_neg_one, ← sub_eq_add_neg]
-  · -- arctan2 0
-    simp [Entry.SoundAt, SE.sem, sem1, sem2, Dom, upd_01, upd_10] at hd ⊢
-    refine (hasDerivAt_arctan2_fst hd.1 hd.2).congr_deriv ?_
-    rw [Real.rpow_neg_one]; ring_nf
-  · -- arctan2 1
-    simp [Entry.SoundAt, SE.sem, sem1, sem2, Dom, upd_01, upd_10] at hd ⊢
-    refine (hasDerivAt_arctan2_snd hd.1 hd.2).congr_deriv ?_
-    rw [Real.rpow_neg_one]; ring_nf
-  · -- inv 0
-    simp [Entry.SoundAt, SE.sem, sem1, sem2, Dom, upd_01, upd_10] at hd ⊢
-    refine (hasDerivAt_inv hd).congr_deriv ?_
-    rfl
-  · -- pow 0
-    simp [Entry.SoundAt, SE.sem, sem1, sem2, Dom, upd_01, upd_10] at hd ⊢
-    have h0 : x 0 ≠ 0 := by
-      rcases hd with h | h
-      · exact ne_of_gt h
-      · exact h.1
-    refine (Real.hasDerivAt_rpow_const (p := x 1) (Or.inl h0)).congr_deriv ?_
-    ring_nf
-  · -- pow 1
-    simp [Entry.SoundAt, SE.sem, sem1, sem2, Dom, upd_01, upd_10] at hd ⊢
-    refine (Real.hasStrictDerivAt_const_rpow hd (x 1)).hasDerivAt.congr_deriv ?_
-    ring_nf
-  · -- abs 0
-    simp [Entry.SoundAt, SE.sem, sem1, sem2, Dom, upd_01, upd_10] at hd ⊢
-    exact hasDerivAt_abs' hd
-  · -- sign 0
-    simp [Entry.SoundAt, SE.sem, sem1, sem2, Dom, upd_01, upd_10] at hd ⊢
-    exact hasDerivAt_sign hd
-  · -- min 0
-    simp [Entry.SoundAt, SE.sem, sem1, sem2, Dom, upd_01, upd_10] at hd ⊢
-    refine (hasDerivAt_min_left hd).congr_deriv ?_
-    rw [← sub_eq_add_neg]; ring_nf
-  · -- min 1
-    simp [Entry.SoundAt, SE.sem, sem1, sem2, Dom, upd_01, upd_10] at hd ⊢
-    refine (hasDerivAt_min_right hd).congr_deriv ?_
-    rw [← sub_eq_add_neg]; ring_nf
-  · -- max 0
-    simp [Entry.SoundAt, SE.sem, sem1, sem2, Dom, upd_01, upd_10] at hd ⊢
-    refine (hasDerivAt_max_left hd).congr_deriv ?_
-    rw [← sub_eq_add_neg]; ring_nf
-  · -- max 1
-    simp [Entry.SoundAt, SE.sem, sem1, sem2, Dom, upd_01, upd_10] at hd ⊢
-    refine (hasDerivAt_max_right hd).congr_deriv ?_
-    rw [← sub_eq_add_neg]; ring_nf
-  · -- floor 0
-    simp [Entry.SoundAt, SE.sem, sem1, sem2, Dom, upd_01, upd_10] at hd ⊢
-    exact hasDerivAt_floor hd
-  · -- not 0
-    simp [Entry.SoundAt, SE.sem, sem1, sem2, Dom, upd_01, upd_10] at hd ⊢
-    exact hasDerivAt_of_eventually_const (eq_eventually_const hd)
-  · -- less 0
-    simp [Entry.SoundAt, SE.sem, sem1, sem2, Dom, upd_01, upd_10] at hd ⊢
-    exact hasDerivAt_of_eventually_const (lt_eventually_const hd)
-  · -- less 1
-    simp [Entry.SoundAt, SE.sem, sem1, sem2, Dom, upd_01, upd_10] at hd ⊢
-    exact hasDerivAt_of_eventually_const (gt_eventually_const (Ne.symm hd))
-  · -- greater 0
-    simp [Entry.SoundAt, SE.sem, sem1, sem2, Dom, upd_01, upd_10] at hd ⊢
-    exact hasDerivAt_of_eventually_const (gt_eventually_const hd)
-  · -- greater 1
-    simp [Entry.SoundAt, SE.sem, sem1, sem2, Dom, upd_01, upd_10] at hd ⊢
-    exact hasDerivAt_of_eventually_const (lt_eventually_const (Ne.symm hd))
-  · -- equal 0
-    simp [Entry.SoundAt, SE.sem, sem1, sem2, Dom, upd_01, upd_10] at hd ⊢
-    exact hasDerivAt_of_eventually_const (eq_eventually_const hd)
-  · -- equal 1
-    simp [Entry.SoundAt, SE.sem, sem1, sem2, Dom, upd_01, upd_10] at hd ⊢
-    exact hasDerivAt_of_eventually_const (eq_eventually_const' (Ne.symm hd))
-  · -- fdiv 0
-    simp [Entry.SoundAt, SE.sem, sem1, sem2, Dom, upd_01, upd_10] at hd ⊢
-    exact hasDerivAt_fdiv_left hd.2
-  · -- fdiv 1
-    simp [Entry.SoundAt, SE.sem, sem1, sem2, Dom, upd_01, upd_10] at hd ⊢
-    exact hasDerivAt_fdiv_right hd.1 hd.2
-  · -- fmod 0
-    simp [Entry.SoundAt, SE.sem, sem1, sem2, Dom, upd_01, upd_10] at hd ⊢
-    have h := (hasDerivAt_id' (x 0)).sub ((hasDerivAt_fdiv_left hd.2).const_mul (x 1))
-    exact h.congr_deriv (by ring)
-  · -- fmod 1
-    simp [Entry.SoundAt, SE.sem, sem1, sem2, Dom, upd_01, upd_10] at hd ⊢
-    have h := (hasDerivAt_const (x 1) (x 0)).sub ((hasDerivAt_id' (x 1)).mul (hasDerivAt_fdiv_right hd.1 hd.2))
-    exact h.congr_deriv (by ring)
+theorem specRules_sound : ∀ e ∈ specRules, e.name ∈ provedNames → ∀ x : Nat → ℝ, Dom e.name e.pos x → e.SoundAt x :=
+  specRules_sound_proof
+
+/-- **The rule in the carrier denotes the rule over ℝ**: under every interpretation that models the atom layer
+(`AppModel`), `SE.toPoly` evaluates to `SE.sem`. -/
+theorem rule_toPoly_sem (ρ : String → ℝ) (hρ : AppModel ρ) (args : List Poly) (e : SE) (v : Poly)
+    (hn : e.noPowApp = true) (h : e.toPoly args = some v) :
+    Poly.eval ρ v = e.sem (fun i => Poly.eval ρ (args[i]?.getD Poly.zero)) := toPoly_sem ρ hρ args e v hn h
+
+/-- **Chain rule through a unary function atom** — the step `datom` performs: the atom `f(q)` moves with derivative
+`rule(f)(q) · q'` at every point of the claimed domain of `f`. -/
+theorem unary_atom_chain (f : String) (r : SE) (q dq v : Poly) (ρ : ℝ → String → ℝ) (a : String) (t0 : ℝ)
+    (hr : specRule f 1 0 = some r) (hf : f ∈ provedNames) (hv : r.toPoly [q] = some v) (hρ : AppModel (ρ t0))
+    (ha : ∀ t, ρ t a = sem1 f (Poly.eval (ρ t) q))
+    (hq : HasDerivAt (fun t => Poly.eval (ρ t) q) (Poly.eval (ρ t0) dq) t0)
+    (hdom : Dom f 0 (fun i => Poly.eval (ρ t0) (([q] : List Poly)[i]?.getD Poly.zero))) :
+    HasDerivAt (fun t => ρ t a) (Poly.eval (ρ t0) (v * dq)) t0 :=
+  unary_atom_hasDerivAt f r q dq v ρ a t0 hr hf hv hρ ha hq hdom
 
 /-! ### the formal partial derivative on `Poly` -/
 
